@@ -44,12 +44,11 @@ Definition protected (f : cfun) : bool := forallb (fun c => mem_str c nothrow_ca
 
 (* rows that are NOT fine, each with a throwing input replayed on the library (checks/C42.py CORPUS):
      lambda_real_double_visitor_init : init({x}, {y})                 SymEngineException, "Symbol not in the symbols vector"
-     basic_dumps                     : dumps(Complexes)               SerializationError
      basic_set_is_subset ...         : {y} against {x} U [1, 2)       NotImplementedError (Union::contains)
+   (basic_dumps was in this list -- dumps(Complexes) throws SerializationError -- until it got its try block)
    the llvm_*_visitor_init rows have the body of lambda_real_double_visitor_init (not compiled in this configuration) *)
 Definition known_escaping : list string := [
   "lambda_real_double_visitor_init"; "llvm_double_visitor_init"; "llvm_float_visitor_init"; "llvm_long_double_visitor_init";
-  "basic_dumps";
   "basic_set_is_subset"; "basic_set_is_proper_subset"; "basic_set_is_superset"; "basic_set_is_proper_superset"
 ].
 (* rows outside a try block whose callee is not known to be total, but for which no throwing input was found:
